@@ -39,6 +39,15 @@ func (s *socketStore) delete(sid string) {
 	delete(s.sockets, sid)
 }
 
+// Delete the session only if it belongs to the given socket.
+func (s *socketStore) deleteSocket(sid string, socket *serverSocket) {
+	s.mu.Lock()
+	defer s.mu.Unlock()
+	if s.sockets[sid] == socket {
+		delete(s.sockets, sid)
+	}
+}
+
 func (s *socketStore) exists(sid string) (exists bool) {
 	s.mu.RLock()
 	defer s.mu.RUnlock()
